@@ -547,6 +547,11 @@ void QXmppOutgoingClient::openSession()
     };
     d->bind2Bound.reset();
 
+    if (!session.smEnabled && !session.smResumed) {
+        // a new session without stream management replaces any earlier one: nothing is left to resume
+        d->c2sStreamManager.onStreamClosed();
+    }
+
     d->iqManager.onSessionOpened(session);
     d->carbonManager.onSessionOpened(session);
     d->csiManager.onSessionOpened(session);
@@ -1447,6 +1452,8 @@ void C2sStreamManager::onResumed(const SmResumed &resumed)
 void C2sStreamManager::onResumeFailed(const SmFailed &)
 {
     q->debug(u"Stream resumption failed"_s);
+    // the server does not know the session (anymore): do not offer to resume it again
+    m_canResume = false;
 }
 
 bool C2sStreamManager::setResumeAddress(const QString &address)
